@@ -1010,6 +1010,7 @@ class Database(object):
 
             table = schema.tables.get(table_name)
             if table is None: table = schema.add_table(table_name, entity)
+            elif table.m2m: throw(MappingError, "Table name %s is already in use" % provider.format_table_name(table_name))
             else: table.add_entity(entity)
 
             for attr in entity._new_attrs_:
